@@ -125,10 +125,8 @@ impl Archive {
     }
 
     pub async fn band_is_closed(&self, band_id: BandId) -> Result<bool> {
-        self.transport
-            .is_file(&format!("{}/{}", band_id, crate::BAND_TAIL_FILENAME))
-            .await
-            .map_err(Error::from)
+        let tail_path = format!("{}/{}", band_id, crate::BAND_TAIL_FILENAME);
+        crate::band::tail_is_complete(&self.transport, &tail_path).await
     }
 
     /// Return an iterator of entries in a selected version.
